@@ -413,10 +413,15 @@ def run(chk, facts, tier):
         "must be contained in a justified bound (&&: cap(l) ∪ cap(r); ||: cap(l) ∩ cap(r), or one operand's under a static True/False guard on the operands; if: (cap(t) ∪ cap(then)) ∩ "
         "cap(else), or one side under a static guard on the test) — containment decided exactly over all assignments of the atoms. (GUARD.optional) every path of the GetAttr / GetTag "
         "closures that grants a typed access passed `is_required` or `prior_capability.contains(<capability of exactly this access>)`. (TRAVERSE) every child of every form reaches a "
-        "typechecking call. Declines soundness of the types themselves, non-vacuity and strict ⊆ permissive.")
+        "typechecking call. (C11.RECORD, shared) the record typecheckers that define which requests / entities are 'accepted by the library's own validation' look up every value key "
+        "and every declared key. Declines soundness of the types themselves, non-vacuity and strict ⊆ permissive.")
     chk.assumptions = ["singleton boolean types True/False are sound (an operand typed True/False evaluates to that value or errors)",
                        "TypecheckAnswer::then_typecheck passes the answer's own capability to its closure; map_capability applies its closure to it",
                        "MIR at mir-opt-level=0 reflects source control flow"]
     capability_flow(chk, facts)
     optional_guard(chk, facts)
     traversal(chk, facts)
+    # the soundness statement quantifies over requests the library's own request validation accepts: the record
+    # typechecker behind it must reject undeclared / missing attributes (shared with C11)
+    from rules import c11_record
+    c11_record.check(chk, facts)
